@@ -315,9 +315,12 @@ impl RoocFunction for ArrayDifference {
         context: &TypeCheckerContext,
         fn_context: &FunctionContext,
     ) -> Vec<(String, PrimitiveKind)> {
+        // both operands are iterated: a first argument that is not an iterable cannot set the
+        // signature (union(3, 3) used to type check and fail in as_iterator)
         let first = args
             .first()
             .map(|a| a.get_type(context, fn_context))
+            .filter(|t| t.is_iterable())
             .unwrap_or(PrimitiveKind::Iterable(Box::new(PrimitiveKind::Any)));
         vec![
             ("from".to_string(), first.clone()),
@@ -371,9 +374,12 @@ impl RoocFunction for ArrayUnion {
         context: &TypeCheckerContext,
         fn_context: &FunctionContext,
     ) -> Vec<(String, PrimitiveKind)> {
+        // both operands are iterated: a first argument that is not an iterable cannot set the
+        // signature (union(3, 3) used to type check and fail in as_iterator)
         let first = args
             .first()
             .map(|a| a.get_type(context, fn_context))
+            .filter(|t| t.is_iterable())
             .unwrap_or(PrimitiveKind::Iterable(Box::new(PrimitiveKind::Any)));
         vec![
             ("first".to_string(), first.clone()),
@@ -426,9 +432,12 @@ impl RoocFunction for ArrayIntersection {
         context: &TypeCheckerContext,
         fn_context: &FunctionContext,
     ) -> Vec<(String, PrimitiveKind)> {
+        // both operands are iterated: a first argument that is not an iterable cannot set the
+        // signature (union(3, 3) used to type check and fail in as_iterator)
         let first = args
             .first()
             .map(|a| a.get_type(context, fn_context))
+            .filter(|t| t.is_iterable())
             .unwrap_or(PrimitiveKind::Iterable(Box::new(PrimitiveKind::Any)));
         vec![
             ("first".to_string(), first.clone()),
